@@ -29,9 +29,24 @@ type Violation struct {
 
 func (v *Violation) String() string { return v.Class + ": " + v.Msg }
 
+// Sig is the signature that minimisation preserves: class plus discriminating attributes.
+func (v *Violation) Sig() string {
+	var ks []string
+	for k := range v.Attrs {
+		ks = append(ks, k)
+	}
+	sort.Strings(ks)
+	s := v.Class
+	for _, k := range ks {
+		s += "|" + k + "=" + v.Attrs[k]
+	}
+	return s
+}
+
 // Outcome of one simulated run.
 type Outcome struct {
 	V          *Violation
+	Also       []*Violation // further violations seen in the same run (the first one not matching a known finding is reported)
 	Nontrivial bool
 	States     []uint64 // abstract states visited by this run (hashes)
 	Faults     map[string]int
@@ -236,7 +251,16 @@ func (s *shrinker) try(vals []uint64) bool {
 	t := tape.NewReplay(vals)
 	c := &Ctx{T: t, Tier: s.tier, Avoid: s.avoid}
 	out, infra := runOnce(s.ch, c)
-	if infra != nil || out == nil || out.V == nil || out.V.Class != s.class {
+	if infra != nil || out == nil || out.V == nil {
+		return false
+	}
+	found := out.V.Sig() == s.class
+	for _, v := range out.Also {
+		if v.Sig() == s.class {
+			found = true
+		}
+	}
+	if !found {
 		return false
 	}
 	used := t.Used()
@@ -437,6 +461,7 @@ func RunBatch(opt Options) int {
 	for _, k := range ch.FaultKinds {
 		a.faults[k] = 0
 	}
+	sampleEvery := uint64(n/24 + 1)
 	var next uint64
 	var stop int32
 	var infraErr atomic.Value
@@ -499,17 +524,29 @@ func RunBatch(opt Options) int {
 				if out.Scenario != nil && len(a.samples) < 3 {
 					a.samples = append(a.samples, out.Scenario)
 				}
-				if i%97 == 0 && len(a.hashes) < 64 {
+				if i%sampleEvery == 0 && len(a.hashes) < 64 {
 					a.hashes[i] = out.TraceHash
 				}
 				a.mu.Unlock()
 				if out.V != nil {
 					vmu.Lock()
-					if f := ff.Match(ch.ID, out.V); f != nil {
-						key := f.Class + "|" + f.What
-						knownSeen[key]++
-						knownWhat[key] = f
+					// a run may carry several violations: known findings are counted, the first
+					// unknown one is the run's violation
+					all := append([]*Violation{out.V}, out.Also...)
+					var unk *Violation
+					for _, v := range all {
+						if f := ff.Match(ch.ID, v); f != nil {
+							key := f.Class + "|" + f.What
+							knownSeen[key]++
+							knownWhat[key] = f
+						} else if unk == nil {
+							unk = v
+						}
+					}
+					if unk == nil {
+						// all known
 					} else {
+						out.V = unk
 						unknown = append(unknown, vio{idx: i, out: out, vals: t.Used(), blocks: t.Blocks()})
 						if len(unknown) >= 1 {
 							atomic.StoreInt32(&stop, 1)
@@ -575,15 +612,23 @@ func RunBatch(opt Options) int {
 		rf := &ReplayFile{Property: ch.ID, Seed: opt.Seed, RunIndex: v.idx, Tier: opt.Tier, Class: v.out.V.Class,
 			Message: v.out.V.Msg, Step: v.out.V.Step, Attrs: v.out.V.Attrs, Tape: v.vals, Blocks: v.blocks, OrigLen: len(v.vals), Avoid: avoidList(avoid)}
 		if !opt.NoShrink {
-			s := &shrinker{ch: ch, tier: opt.Tier, class: v.out.V.Class, avoid: avoid, maxExec: 3000, deadline: time.Now().Add(60 * time.Second), best: v.vals, bestBlocks: v.blocks}
+			s := &shrinker{ch: ch, tier: opt.Tier, class: v.out.V.Sig(), avoid: avoid, maxExec: 3000, deadline: time.Now().Add(60 * time.Second), best: v.vals, bestBlocks: v.blocks}
 			s.run()
 			rf.Tape = s.best
 			rf.Blocks = s.bestBlocks
 			rf.Shrunk = true
 		}
 		// final execution of the minimised tape for message, scenario and trace hash
+		v0sig := v.out.V.Sig()
 		t := tape.NewReplay(rf.Tape)
 		out, infra := runOnce(ch, &Ctx{T: t, Tier: opt.Tier, WantScenario: true, Avoid: avoid})
+		if infra == nil && out != nil && out.V != nil {
+			for _, v := range out.Also {
+				if out.V.Sig() != v0sig && v.Sig() == v0sig {
+					out.V = v
+				}
+			}
+		}
 		if infra == nil && out != nil && out.V != nil && out.V.Class == rf.Class {
 			rf.Message = out.V.Msg
 			rf.Step = out.V.Step
